@@ -55,3 +55,84 @@ pub fn run_lines<F: FnMut(&[&str]) -> String>(mut f: F) {
     }
     out.flush().unwrap();
 }
+
+/// A `Buf` made of several chunks (to exercise code generic over `B: Buf` with non-contiguous payloads).
+#[derive(Debug, Clone)]
+pub struct ChunkBuf {
+    chunks: std::collections::VecDeque<bytes::Bytes>,
+}
+
+impl ChunkBuf {
+    pub fn new(chunks: Vec<bytes::Bytes>) -> Self {
+        Self {
+            chunks: chunks.into_iter().filter(|c| !c.is_empty()).collect(),
+        }
+    }
+}
+
+impl bytes::Buf for ChunkBuf {
+    fn remaining(&self) -> usize {
+        self.chunks.iter().map(|c| c.len()).sum()
+    }
+    fn chunk(&self) -> &[u8] {
+        self.chunks.front().map(|c| &c[..]).unwrap_or(&[])
+    }
+    fn advance(&mut self, mut cnt: usize) {
+        while cnt > 0 {
+            let front = self.chunks.front_mut().expect("advance past the end of ChunkBuf");
+            if cnt < front.len() {
+                bytes::Buf::advance(front, cnt);
+                return;
+            }
+            cnt -= front.len();
+            self.chunks.pop_front();
+        }
+    }
+}
+
+/// Numeric value of the `Code` named in a Debug rendering such as
+/// `InternalConnectionError { code: H3_DATAGRAM_ERROR, .. }` or `... code: 0x1234 ...`.
+/// The number comes from the working tree's own `Code::NAME.value()`.
+pub fn code_value(debug: &str) -> String {
+    use h3::error::Code;
+    let table: &[(&str, Code)] = &[
+        ("H3_DATAGRAM_ERROR", Code::H3_DATAGRAM_ERROR),
+        ("H3_NO_ERROR", Code::H3_NO_ERROR),
+        ("H3_GENERAL_PROTOCOL_ERROR", Code::H3_GENERAL_PROTOCOL_ERROR),
+        ("H3_INTERNAL_ERROR", Code::H3_INTERNAL_ERROR),
+        ("H3_STREAM_CREATION_ERROR", Code::H3_STREAM_CREATION_ERROR),
+        ("H3_CLOSED_CRITICAL_STREAM", Code::H3_CLOSED_CRITICAL_STREAM),
+        ("H3_FRAME_UNEXPECTED", Code::H3_FRAME_UNEXPECTED),
+        ("H3_FRAME_ERROR", Code::H3_FRAME_ERROR),
+        ("H3_EXCESSIVE_LOAD", Code::H3_EXCESSIVE_LOAD),
+        ("H3_ID_ERROR", Code::H3_ID_ERROR),
+        ("H3_SETTINGS_ERROR", Code::H3_SETTINGS_ERROR),
+        ("H3_MISSING_SETTINGS", Code::H3_MISSING_SETTINGS),
+        ("H3_REQUEST_REJECTED", Code::H3_REQUEST_REJECTED),
+        ("H3_REQUEST_CANCELLED", Code::H3_REQUEST_CANCELLED),
+        ("H3_REQUEST_INCOMPLETE", Code::H3_REQUEST_INCOMPLETE),
+        ("H3_MESSAGE_ERROR", Code::H3_MESSAGE_ERROR),
+        ("H3_CONNECT_ERROR", Code::H3_CONNECT_ERROR),
+        ("H3_VERSION_FALLBACK", Code::H3_VERSION_FALLBACK),
+        ("QPACK_DECOMPRESSION_FAILED", Code::QPACK_DECOMPRESSION_FAILED),
+        ("QPACK_ENCODER_STREAM_ERROR", Code::QPACK_ENCODER_STREAM_ERROR),
+        ("QPACK_DECODER_STREAM_ERROR", Code::QPACK_DECODER_STREAM_ERROR),
+    ];
+    if let Some(i) = debug.find("code: ") {
+        let rest = &debug[i + 6..];
+        let end = rest.find(|c: char| !(c.is_alphanumeric() || c == '_')).unwrap_or(rest.len());
+        let name = &rest[..end];
+        for (n, c) in table {
+            if *n == name {
+                return c.value().to_string();
+            }
+        }
+        if let Some(h) = name.strip_prefix("0x") {
+            if let Ok(v) = u64::from_str_radix(h, 16) {
+                return v.to_string();
+            }
+        }
+        return format!("?{}", name);
+    }
+    "?nocode".to_string()
+}
